@@ -173,6 +173,13 @@ def c06_cases(ctx, bases, rnd):
                         cuts.add(x + dlt)
             for _ in range(24 if q else 200):
                 cuts.add(rnd.randrange(1, n))
+            # inside the data of blocks beyond 64 KiB: at every multiple of 64 KiB from the start of the data (and next to it)
+            for k_, a, z in lay:
+                if k_ == "payload" and z - a > 65536:
+                    for m in range(1, (z - a) // 65536 + 1):
+                        for dlt in (-1, 0, 1):
+                            if a < a + m * 65536 + dlt < min(z, n):
+                                cuts.add(a + m * 65536 + dlt)
             cuts = sorted(cuts)
         B = fl.block_of(c["opts"])
         for cut in cuts:
@@ -238,6 +245,12 @@ def c05_cases(ctx, bases, rnd):
                     continue
                 desc = [nflg, nbd] + (csz if len(csz) == 8 else [])
                 add(bf, [[3, 4, nflg], [3, 5, nbd], [3, hcpos, (xxh32(desc) >> 8) & 255]], "descriptor-with-valid-hc")
+            # the checksum byte replaced by 0x00 / 0xFF (no "not set" value exists), alone and with an edited descriptor
+            for nflg, nbd in ((flg, bd), (flg & ~0x04, bd), (flg ^ 0x10, bd), (flg, bd ^ 0x10)):
+                for hc0 in (0x00, 0xFF):
+                    desc = [nflg & 255, nbd] + (csz if len(csz) == 8 else [])
+                    if (xxh32(desc) >> 8) & 255 != hc0:
+                        add(bf, [[3, 4, nflg & 255], [3, 5, nbd], [3, hcpos, hc0]], "descriptor-hc-%02x" % hc0)
         spans = block_spans(lay)
         if len(spans) >= 2:
             for _ in range(3 if q else 10):
@@ -335,6 +348,13 @@ def c07_cases(ctx, bases, rnd):
     for cs in (0, 1 << 63, (1 << 64) - 1):
         desc = [0x68, 0x40] + [(cs >> (8 * k)) & 255 for k in range(8)]
         add([{"bytes": FRAME_MAGIC + desc + [0]}], "content-size-bad-hc")
+    # reserved block-size codes, other versions and reserved bits behind a VALID header checksum
+    for flg, bd in [(0x60, c << 4) for c in (0, 1, 2, 3)] + [(0x64, c << 4) for c in (1, 2, 3)] + [(0x60, 0xC0), (0x20, 0x40), (0xA0, 0x40), (0x62, 0x40), (0x61, 0x40)]:
+        desc = [flg, bd]
+        for conc in (1, 4):
+            for mode in ("read", "writeto"):
+                add([{"bytes": FRAME_MAGIC + desc + [(xxh32(desc) >> 8) & 255] + le32(0x80000000 | 5) + [104, 101, 108, 108, 111] + [0, 0, 0, 0] * 2}],
+                    "descriptor-valid-hc", cfg={"conc": conc, "mode": mode, "bufs": [4096]})
     # a hostile content size behind a VALID header checksum, a few bytes of real data: nothing may be sized from the field
     for cs in (0, 5, 6, 1 << 26, 1 << 31, (1 << 32) + 5, 1 << 40, (1 << 63) - 1, 1 << 63, (1 << 64) - 1):
         for flg in (0x68, 0x6C):
